@@ -36,6 +36,7 @@ cd /
 git -C /repo worktree remove --force $WT
 git -C /repo apply $OUT/patch.diff
 for P in $PROPS; do
+  rm -f /verif/replays/$P-*
   echo "== ./check $P with the change applied to /repo" >> $LOG
   (cd /verif && ./check $P 2>&1 | grep -E "VIOLATION|KNOWN-FINDING|PROBLEM|: ok" | cut -c1-300) >> $LOG
   if ls /verif/replays/$P-*-violation.txt >/dev/null 2>&1; then
